@@ -26,4 +26,4 @@ for c in "${CHECKS[@]}"; do
   echo "SEEDED $NAME check=$c exit=$RC $(echo "$OUT" | grep -c '^VIOLATION') violation-lines $SIGS"
   echo "$OUT" | grep "^SUMMARY\|HARNESS-ERROR" | head -3
 done
-if [ $INREPO -eq 1 ]; then git -C /repo checkout -- . ; else git -C /repo worktree remove --force $TARGET; fi
+if [ $INREPO -eq 1 ]; then git -C /repo checkout -- . ; else git -C /repo worktree remove --force $TARGET; rm -rf /verif/.build/alt-$(basename $TARGET)*; fi
